@@ -21,6 +21,12 @@ CHECKS = {
         "docstrings, edits outside the closure in other packages, dry run, GC, index-only load), and rebuilt in another child process with a generated package "
         "load order; no body may run and no TargetEvaluating may be reported in the closure.",
    note="Load order is controlled at package granularity (gates in generated BUILD files); same-file edits of other targets are not claimed as no-ops."),
+ "C03": dict(engine="projsim", level="fault_enumeration", section="5 C03", technique="fault injection over generated scenarios (rapid): enumerate the crash points of the faulty build, kill a child process at each, recover in new loads, differential against a from-scratch build",
+   text="The faulty build of each generated scenario is first run in counting mode to list every crash-point occurrence (body start/middle/end, record "
+        "temp-file create / encode / rename, failure records, load-time refresh, index create / write); each selected (quick: up to 6, thorough: all) point "
+        "kills a child process there; afterwards the project must load (index preferred or not) without touching files, interrupted or failed targets must "
+        "re-execute, and the recovery and final builds must equal a from-scratch build byte for byte. A failing-body variant is checked the same way.",
+   note="Crash = process exit at a Go-level boundary named by a verif-tagged hook; power-loss effects (torn writes, reordered renames) are not modelled."),
  "C04": dict(engine="cosched", level="exploration", section="5 C04", technique="schedule exploration: generated graphs x generated schedules on a cooperative token scheduler (rapid), plus delay-injection runs and -race in thorough",
    text="The real runner.Run executes generated acyclic graphs with recording Targets while a cooperative scheduler that owns every scheduling point of "
         "runner.go takes each decision from a generated choice vector (deterministic, shrinkable, exact deadlock detection); a third of the cases run free "
